@@ -77,7 +77,7 @@ def argument : G :=
 def union_expr : G :=
   G.seq [G.nt N.path_expr, G.many0 (G.seq [G.seq [G.cls0 P.isSpace, G.tag [Char.ofNat 124], G.cls0 P.isSpace], G.nt N.path_expr])]
 def path_expr : G :=
-  G.alt [G.seq [G.nt N.filter_expr, G.seq [G.cls0 P.isSpace, G.alt [G.tag [Char.ofNat 47,Char.ofNat 47], G.tag [Char.ofNat 47]], G.cls0 P.isSpace], G.nt N.relative_location_path], G.nt N.filter_expr, G.seq [G.seq [G.alt [G.tag [Char.ofNat 47,Char.ofNat 47], G.tag [Char.ofNat 47]], G.cls0 P.isSpace], G.nt N.relative_location_path], G.nt N.filter_expr, G.nt N.relative_location_path, G.tag [Char.ofNat 47]]
+  G.alt [G.seq [G.nt N.filter_expr, G.alt [G.seq [G.seq [G.cls0 P.isSpace, G.alt [G.tag [Char.ofNat 47,Char.ofNat 47], G.tag [Char.ofNat 47]], G.cls0 P.isSpace], G.nt N.relative_location_path], G.seq []]], G.seq [G.seq [G.alt [G.tag [Char.ofNat 47,Char.ofNat 47], G.tag [Char.ofNat 47]], G.cls0 P.isSpace], G.nt N.relative_location_path], G.nt N.relative_location_path, G.tag [Char.ofNat 47]]
 def filter_expr : G :=
   G.seq [G.nt N.primary_expr, G.many0 (G.seq [G.cls0 P.isSpace, G.nt N.predicate])]
 def or_expr : G :=
@@ -99,7 +99,7 @@ def literal : G :=
 def number : G :=
   G.alt [G.seq [G.cls1 P.isDigit, G.alt [G.seq [G.tag [Char.ofNat 46], G.cls0 P.isDigit], G.seq []]], G.seq [G.tag [Char.ofNat 46], G.cls1 P.isDigit]]
 def function_name : G :=
-  G.nt N.qname
+  G.verify (G.nt N.qname) (fun c => !([[Char.ofNat 99,Char.ofNat 111,Char.ofNat 109,Char.ofNat 109,Char.ofNat 101,Char.ofNat 110,Char.ofNat 116], [Char.ofNat 116,Char.ofNat 101,Char.ofNat 120,Char.ofNat 116], [Char.ofNat 112,Char.ofNat 114,Char.ofNat 111,Char.ofNat 99,Char.ofNat 101,Char.ofNat 115,Char.ofNat 115,Char.ofNat 105,Char.ofNat 110,Char.ofNat 103,Char.ofNat 45,Char.ofNat 105,Char.ofNat 110,Char.ofNat 115,Char.ofNat 116,Char.ofNat 114,Char.ofNat 117,Char.ofNat 99,Char.ofNat 116,Char.ofNat 105,Char.ofNat 111,Char.ofNat 110], [Char.ofNat 110,Char.ofNat 111,Char.ofNat 100,Char.ofNat 101]]).contains c.flatten)
 def variable_reference : G :=
   G.seq [G.tag [Char.ofNat 36], G.nt N.qname]
 def name_test : G :=
@@ -174,11 +174,11 @@ theorem env_variable_reference : env N.variable_reference = Prod.variable_refere
 theorem env_name_test : env N.name_test = Prod.name_test := rfl
 theorem env_node_type : env N.node_type = Prod.node_type := rfl
 
-/-- no recursion-depth guard in the source: unbounded -/
-def maxDepth_element : Nat := 0
+/-- `expr` refuses nesting deeper than this (thread-local depth counter in the source) -/
+def maxDepth_expr : Nat := 32
 
 /-- semantic actions (closures of `map`) seen by the translator: (production, sha1 of the text).
     The model's `abs` functions are hand-written counterparts; the differential tie covers them. -/
-def actionFingerprints : List (String × String) := [("qname", "255d22b30239"), ("qname", "255d22b30239"), ("prefixed_name", "1b78533b5138"), ("relative_location_path", "9cac3f0fa56e"), ("relative_location_path", "bf3f8d202559"), ("step", "e856c7da169a"), ("step", "b0b80c954e4c"), ("step", "54fc2697def6"), ("axis_specifier", "83e88d60e163"), ("axis_specifier", "5ebec1f364ed"), ("axis_name", "635f4bd0af41"), ("node_test", "399cbd88bf49"), ("node_test", "399cbd88bf49"), ("node_test", "399cbd88bf49"), ("primary_expr", "d754f53abcd6"), ("primary_expr", "d754f53abcd6"), ("primary_expr", "d754f53abcd6"), ("primary_expr", "057b38d26b2c"), ("primary_expr", "d754f53abcd6"), ("function_call", "77a97fcbb277"), ("union_expr", "7022381dc3f8"), ("path_expr", "5cadad56780d"), ("path_expr", "bf3f8d202559"), ("path_expr", "59b3fdc1274f"), ("path_expr", "563b122e3aa7"), ("path_expr", "bf3f8d202559"), ("path_expr", "59b3fdc1274f"), ("path_expr", "59b3fdc1274f"), ("path_expr", "7389e67f1309"), ("filter_expr", "37399eb4b85d"), ("or_expr", "c9fc49889a96"), ("and_expr", "da2998351d62"), ("equality_expr", "6ed5ccbbf681"), ("equality_expr", "6b5585d141e5"), ("relation_expr", "67af4bc85154"), ("relation_expr", "a885ff53d973"), ("additive_expr", "1d198df47709"), ("additive_expr", "931444f081bd"), ("multiplicative_expr", "364f6f2a6c3f"), ("multiplicative_expr", "a6409a8b937c"), ("unary_expr", "e7107184d755"), ("name_test", "9551a1986ada"), ("name_test", "07456d7ac41a"), ("name_test", "07456d7ac41a"), ("node_type", "d46a8358ace7")]
+def actionFingerprints : List (String × String) := [("qname", "255d22b30239"), ("qname", "255d22b30239"), ("prefixed_name", "1b78533b5138"), ("relative_location_path", "9cac3f0fa56e"), ("relative_location_path", "bf3f8d202559"), ("step", "e856c7da169a"), ("step", "b0b80c954e4c"), ("step", "54fc2697def6"), ("axis_specifier", "83e88d60e163"), ("axis_specifier", "5ebec1f364ed"), ("axis_name", "635f4bd0af41"), ("node_test", "399cbd88bf49"), ("node_test", "399cbd88bf49"), ("node_test", "399cbd88bf49"), ("primary_expr", "d754f53abcd6"), ("primary_expr", "d754f53abcd6"), ("primary_expr", "d754f53abcd6"), ("primary_expr", "057b38d26b2c"), ("primary_expr", "d754f53abcd6"), ("function_call", "77a97fcbb277"), ("union_expr", "7022381dc3f8"), ("path_expr", "baeaae6a023c"), ("path_expr", "bf3f8d202559"), ("path_expr", "563b122e3aa7"), ("path_expr", "bf3f8d202559"), ("path_expr", "59b3fdc1274f"), ("path_expr", "7389e67f1309"), ("filter_expr", "37399eb4b85d"), ("or_expr", "c9fc49889a96"), ("and_expr", "da2998351d62"), ("equality_expr", "6ed5ccbbf681"), ("equality_expr", "6b5585d141e5"), ("relation_expr", "67af4bc85154"), ("relation_expr", "a885ff53d973"), ("additive_expr", "1d198df47709"), ("additive_expr", "931444f081bd"), ("multiplicative_expr", "364f6f2a6c3f"), ("multiplicative_expr", "a6409a8b937c"), ("unary_expr", "e7107184d755"), ("name_test", "9551a1986ada"), ("name_test", "07456d7ac41a"), ("name_test", "07456d7ac41a"), ("node_type", "d46a8358ace7")]
 
 end XmlRs.Gen.XPath
